@@ -257,7 +257,7 @@ pub fn c18(a: &Analysis) -> Vec<Violation> {
                         let ind = t.at_src.finished().into_iter().find(|(i, _)| i.seq > r.seq);
                         match ind {
                             Some((_, f)) => {
-                                if f.report.condition != pf.condition || f.delivery_code != pf.delivery_code {
+                                if f.report.condition != pf.condition || f.delivery_code != pf.delivery_code || f.file_status != pf.file_status {
                                     out.push(v(
                                         "C18",
                                         "sender_report_differs_from_finished_pdu",
